@@ -169,9 +169,9 @@ Print Assumptions five_xx_never_query.
 Example five_xx_token_antecedent :
   let w := mkWorld (mkConfig POpenID [GClientCredentials] [] [] [] false 0 300 IssueNever false 0 false false "" [] false false 0 false
                  false false false false false 0 false false false false false false false false false
-                 false false false false false false false "" false [])
-                   [mkClient 1 false [GClientCredentials] [] [] "" CibaNone false false false false false false false 0 false] in
-  snd (run_seq (cc_grant w 0 0%Z (mkTReq (mkCred 1 true) no_bind "" 0 "" 0 PkEmpty 0 HgFail BaApprove [] AsNone)) empty_store)
+                 false false false false false false false "" false [] false [] CmpNone)
+                   [mkClient 1 false [GClientCredentials] [] [] "" CibaNone false false false false false false false 0 false None] in
+  snd (run_seq (cc_grant w 0 0%Z (mkTReq (mkCred 1 true) no_bind "" 0 "" 0 PkEmpty 0 HgFail BaApprove [] AsNone None)) empty_store)
   = OErr EInternalError.
 Proof. vm_compute. reflexivity. Qed.
 
@@ -248,12 +248,12 @@ Print Assumptions frame_introspect.
 Definition orphan_world : world :=
   mkWorld (mkConfig POpenID [GAuthorizationCode] [] ["code"] [] false 600 300 IssueNever false 0 false false "" [] false false 0 false
              false false false false false 0 false false false false false false false false false
-             false false false false false false false "" false []) [].
+             false false false false false false false "" false [] false [] CmpNone) [].
 Definition orphan_session : asession :=
-  mkASession 41 7 "" 0 37 0 0 "" 0 0 1000%Z 0 "" (mkParams 0 "https://c.example/cb" "" "code" "openid" "" "" PkEmpty "" 0 "" 0 "" []) [].
+  mkASession 41 7 "" 0 37 0 0 "" 0 0 1000%Z 0 "" (mkParams 0 "https://c.example/cb" "" "code" "openid" "" "" PkEmpty "" 0 "" 0 "" [] None) [] [].
 Definition orphan_store : store := mkStore [] [orphan_session] [].
 Theorem refused_callback_client_deleted :
-  let r := mkCbReq 37 (PolSuccess "user" "openid" []) in
+  let r := mkCbReq 37 (PolSuccess "user" "openid" [] []) in
   snd (run_alias (continue_auth orphan_world 3 0%Z r) orphan_store) = OErr EInvalidRequest /\
   fst (run_alias (continue_auth orphan_world 3 0%Z r) orphan_store) = mkStore [] (del_asess 41 [orphan_session]) [] /\
   fst (run_seq (continue_auth orphan_world 3 0%Z r) orphan_store) = mkStore [] (del_asess 41 [orphan_session]) [].
